@@ -212,6 +212,13 @@ func judge(c Case, o Outcome) (v verdict) {
 			return
 		}
 	}
+	if o.SecondDone && o.Second != "" && dmg <= p && o.GotEqual {
+		v.viol = fmt.Sprintf("%d of %d shards damaged (p=%d): the repairing read returned the stored bytes, but a second read right after it returned %s", dmg, n, p, o.Second)
+		return
+	}
+	if o.SecondDone {
+		v.labels = append(v.labels, "secondReadAfterRepair")
+	}
 	if c.Mode != "repair" {
 		return
 	}
